@@ -193,6 +193,10 @@ def value_change(a, b):
 
     if not lost and not gained:
         return "reordered"
+    py_only = [c for c in lost if _is_py_blank_only(c)]
+    if py_only and not gained:
+        # a character only Python calls blank was taken for indentation; the spaces / tabs around it go with it
+        return "lost-python-blank:%s" % cps(py_only)
     return "lost:%s;gained:%s" % (cps(lost) or "-", cps(gained) or "-")
 
 
